@@ -67,6 +67,8 @@ struct Space<'a> {
     dest: Box<dyn Fn(Point<f64>, f64, f64) -> Point<f64> + 'a>,
     ratio: Box<dyn Fn(Point<f64>, Point<f64>, f64) -> Point<f64> + 'a>,
     length: Box<dyn Fn(&LineString<f64>) -> f64 + 'a>,
+    at_dist: Box<dyn Fn(Point<f64>, Point<f64>, f64) -> Point<f64> + 'a>,
+    along: Box<dyn Fn(Point<f64>, Point<f64>, f64, bool) -> Vec<Point<f64>> + 'a>,
 }
 
 impl Property for C16 {
@@ -137,14 +139,14 @@ impl Property for C16 {
         let mars_g = GeodesicMeasure::new(3396190.0, 1.0 / 169.8);
         let mars_h = HaversineMeasure::new(3389500.0);
         let spaces: Vec<Space> = vec![
-            Space { name: "Haversine", dist: Box::new(|p, q| Haversine.distance(p, q)), bearing: Box::new(|p, q| Haversine.bearing(p, q)), dest: Box::new(|p, t, d| Haversine.destination(p, t, d)), ratio: Box::new(|p, q, r| Haversine.point_at_ratio_between(p, q, r)), length: Box::new(|l| Haversine.length(l)) },
-            Space { name: "Geodesic", dist: Box::new(|p, q| Geodesic.distance(p, q)), bearing: Box::new(|p, q| Geodesic.bearing(p, q)), dest: Box::new(|p, t, d| Geodesic.destination(p, t, d)), ratio: Box::new(|p, q, r| Geodesic.point_at_ratio_between(p, q, r)), length: Box::new(|l| Geodesic.length(l)) },
+            Space { name: "Haversine", dist: Box::new(|p, q| Haversine.distance(p, q)), bearing: Box::new(|p, q| Haversine.bearing(p, q)), dest: Box::new(|p, t, d| Haversine.destination(p, t, d)), ratio: Box::new(|p, q, r| Haversine.point_at_ratio_between(p, q, r)), length: Box::new(|l| Haversine.length(l)), at_dist: Box::new(|p, q, d| Haversine.point_at_distance_between(p, q, d)), along: Box::new(|p, q, m, e| Haversine.points_along_line(p, q, m, e).collect()) },
+            Space { name: "Geodesic", dist: Box::new(|p, q| Geodesic.distance(p, q)), bearing: Box::new(|p, q| Geodesic.bearing(p, q)), dest: Box::new(|p, t, d| Geodesic.destination(p, t, d)), ratio: Box::new(|p, q, r| Geodesic.point_at_ratio_between(p, q, r)), length: Box::new(|l| Geodesic.length(l)), at_dist: Box::new(|p, q, d| Geodesic.point_at_distance_between(p, q, d)), along: Box::new(|p, q, m, e| Geodesic.points_along_line(p, q, m, e).collect()) },
             // custom figures (every method must use the measure's own parameters, not the WGS84 / mean-radius defaults):
             // Bessel 1841, a Mars-like ellipsoid (flattening 1/169.8), a sphere of Mars' radius
-            Space { name: "Geodesic(Bessel1841)", dist: Box::new(|p, q| bessel.distance(p, q)), bearing: Box::new(|p, q| bessel.bearing(p, q)), dest: Box::new(|p, t, d| bessel.destination(p, t, d)), ratio: Box::new(|p, q, r| bessel.point_at_ratio_between(p, q, r)), length: Box::new(|l| bessel.length(l)) },
-            Space { name: "Geodesic(Mars)", dist: Box::new(|p, q| mars_g.distance(p, q)), bearing: Box::new(|p, q| mars_g.bearing(p, q)), dest: Box::new(|p, t, d| mars_g.destination(p, t, d)), ratio: Box::new(|p, q, r| mars_g.point_at_ratio_between(p, q, r)), length: Box::new(|l| mars_g.length(l)) },
-            Space { name: "Haversine(r=3389500)", dist: Box::new(|p, q| mars_h.distance(p, q)), bearing: Box::new(|p, q| mars_h.bearing(p, q)), dest: Box::new(|p, t, d| mars_h.destination(p, t, d)), ratio: Box::new(|p, q, r| mars_h.point_at_ratio_between(p, q, r)), length: Box::new(|l| mars_h.length(l)) },
-            Space { name: "Rhumb", dist: Box::new(|p, q| Rhumb.distance(p, q)), bearing: Box::new(|p, q| Rhumb.bearing(p, q)), dest: Box::new(|p, t, d| Rhumb.destination(p, t, d)), ratio: Box::new(|p, q, r| Rhumb.point_at_ratio_between(p, q, r)), length: Box::new(|l| Rhumb.length(l)) },
+            Space { name: "Geodesic(Bessel1841)", dist: Box::new(|p, q| bessel.distance(p, q)), bearing: Box::new(|p, q| bessel.bearing(p, q)), dest: Box::new(|p, t, d| bessel.destination(p, t, d)), ratio: Box::new(|p, q, r| bessel.point_at_ratio_between(p, q, r)), length: Box::new(|l| bessel.length(l)), at_dist: Box::new(|p, q, d| bessel.point_at_distance_between(p, q, d)), along: Box::new(|p, q, m, e| bessel.points_along_line(p, q, m, e).collect()) },
+            Space { name: "Geodesic(Mars)", dist: Box::new(|p, q| mars_g.distance(p, q)), bearing: Box::new(|p, q| mars_g.bearing(p, q)), dest: Box::new(|p, t, d| mars_g.destination(p, t, d)), ratio: Box::new(|p, q, r| mars_g.point_at_ratio_between(p, q, r)), length: Box::new(|l| mars_g.length(l)), at_dist: Box::new(|p, q, d| mars_g.point_at_distance_between(p, q, d)), along: Box::new(|p, q, m, e| mars_g.points_along_line(p, q, m, e).collect()) },
+            Space { name: "Haversine(r=3389500)", dist: Box::new(|p, q| mars_h.distance(p, q)), bearing: Box::new(|p, q| mars_h.bearing(p, q)), dest: Box::new(|p, t, d| mars_h.destination(p, t, d)), ratio: Box::new(|p, q, r| mars_h.point_at_ratio_between(p, q, r)), length: Box::new(|l| mars_h.length(l)), at_dist: Box::new(|p, q, d| mars_h.point_at_distance_between(p, q, d)), along: Box::new(|p, q, m, e| mars_h.points_along_line(p, q, m, e).collect()) },
+            Space { name: "Rhumb", dist: Box::new(|p, q| Rhumb.distance(p, q)), bearing: Box::new(|p, q| Rhumb.bearing(p, q)), dest: Box::new(|p, t, d| Rhumb.destination(p, t, d)), ratio: Box::new(|p, q, r| Rhumb.point_at_ratio_between(p, q, r)), length: Box::new(|l| Rhumb.length(l)), at_dist: Box::new(|p, q, d| Rhumb.point_at_distance_between(p, q, d)), along: Box::new(|p, q, m, e| Rhumb.points_along_line(p, q, m, e).collect()) },
         ];
         let ctx = || format!("a={:?} b={:?} r={} central angle {ang} deg", c.a, c.b, c.ratio);
         for sp in &spaces {
@@ -181,6 +183,27 @@ impl Property for C16 {
                     o.expect((d1 - c.ratio * d).abs() <= tol && (d2 - (1.0 - c.ratio) * d).abs() <= tol, &format!("{n}|ratio-split"), || {
                         format!("m={:?} d(a,m)={d1} want {} d(m,b)={d2} want {}; {}", m, c.ratio * d, (1.0 - c.ratio) * d, ctx())
                     });
+                }
+                if well_here && d > 1.0 {
+                    // point_at_distance_between: the point at that distance from the start (same as the ratio form)
+                    let dm = c.ratio * d;
+                    let pd = (sp.at_dist)(a, b, dm);
+                    let e = (sp.dist)(a, pd);
+                    o.expect((e - dm).abs() <= tol, &format!("{n}|point_at_distance_between"), || format!("{:?} is {e} from a, want {dm}; {}", pd, ctx()));
+                    // points_along_line: consecutive points are never further apart than max_distance (documented), the ends
+                    // are included exactly when asked, and no more points are inserted than needed (one spare allowed)
+                    let maxd = (d * (0.05 + 0.9 * c.ratio)).max(d / 40.0);
+                    let with_ends = (sp.along)(a, b, maxd, true);
+                    let without = (sp.along)(a, b, maxd, false);
+                    let ok_ends = with_ends.len() >= 2 && with_ends.first() == Some(&a) && with_ends.last() == Some(&b);
+                    o.expect(ok_ends, &format!("{n}|points_along_line|ends-missing"), || format!("{:?}; max {maxd}; {}", with_ends, ctx()));
+                    if ok_ends {
+                        o.expect(with_ends[1..with_ends.len() - 1] == without[..], &format!("{n}|points_along_line|include_ends-changes-the-interior"), || format!("{:?} vs {:?}; {}", with_ends, without, ctx()));
+                        let gap = with_ends.windows(2).map(|w| (sp.dist)(w[0], w[1])).fold(0.0, f64::max);
+                        o.expect(gap <= maxd * (1.0 + 1e-9) + tol, &format!("{n}|points_along_line|gap-exceeds-max"), || format!("largest gap {gap} > {maxd}; {} points; {}", with_ends.len(), ctx()));
+                        let need = (d / maxd).ceil() as usize;
+                        o.expect(without.len() + 1 <= need + 1, &format!("{n}|points_along_line|too-many-points"), || format!("{} interior points for d={d} max={maxd}; {}", without.len(), ctx()));
+                    }
                 }
                 // length = sum of segment distances
                 let mut pts = vec![a, b];
